@@ -563,6 +563,20 @@ Definition fn_name (v : val) : option string :=
   | _ => None
   end.
 
+(** dicts with string keys: an object of class "dict" whose fields are the items in INSERTION order, every key
+    once; d[k] = v replaces the value of an existing key in place and appends a new key (Python's rule) *)
+Fixpoint dict_set (fs : list (string * val)) (k : string) (v : val) : list (string * val) :=
+  match fs with
+  | [] => [(k, v)]
+  | (k', v') :: t => if String.eqb k k' then (k, v) :: t else (k', v') :: dict_set t k v
+  end.
+Fixpoint dict_of_pairs (l : list val) (acc : list (string * val)) : option (list (string * val)) :=
+  match l with
+  | [] => Some acc
+  | VT [VS k; v] :: t => dict_of_pairs t (dict_set acc k v)
+  | _ => None
+  end.
+
 (** builtins of the fragment, on exact numbers *)
 Definition call (f : string) (args : list val) : option (option val) :=   (* None: stuck; Some None: raises *)
   let is := String.eqb f in
@@ -817,6 +831,11 @@ Definition call (f : string) (args : list val) : option (option val) :=   (* Non
     | [VA l; VB _] => if all_num l then Some (Some (VA l)) else None
     | _ => None
     end
+  else if is "dict" then                (* {k: v for ..} / dict(pairs): the serialiser renders a dict comprehension as dict([(k, v) for ..]) *)
+    match args with
+    | [VL l] => match dict_of_pairs l [] with Some fs => Some (Some (VO "dict" fs)) | None => None end
+    | _ => None
+    end
   else if is "np.ones_like,dtype=" then   (* np.ones_like(a, dtype="float64") of a 1-D array: float ones *)
     match args with
     | [VA l; VS d] => if all_scalar l && String.eqb d "float64" then Some (Some (VA (map (fun _ => VQ 1) l))) else None
@@ -1010,6 +1029,15 @@ Fixpoint eval (env : list (string * val)) (e : expr) {struct e} : option (option
           end
       | Some None, _ => Some None
       | Some (Some _), Some None => Some None
+      | Some (Some (VO c fs)), Some (Some k) =>
+          (* d[k] of a dict with string keys (a missing key: KeyError); x[k] of any other object is the
+             specification "getitem:<class>" of the [user] table *)
+          if String.eqb c "dict" then
+            match k with
+            | VS key => match lookup fs key with Some v => ret v | None => Some None end
+            | _ => None
+            end
+          else match user ("getitem:" ++ c) with Some g => g [VO c fs; k] | None => None end
       | _, _ => None
       end
   | ESliceTo a k =>
@@ -1250,6 +1278,21 @@ Fixpoint exec (s : stmt) (env : list (string * val)) {struct s} : outcome :=
               end
           | None => Stuck
           end
+      | Some (VO c fs), Some (Some k), Some (Some v) =>
+          (* d[k] = v on a dict with string keys; x[k] = v on any other object is the specification
+             "setitem:<class>" of the [user] table, which returns the object's new state *)
+          if String.eqb c "dict" then
+            match k with
+            | VS key => Normal ((x, VO c (dict_set fs key v)) :: env)
+            | _ => Stuck
+            end
+          else match user ("setitem:" ++ c) with
+               | Some g => match g [VO c fs; k; v] with
+                           | Some (Some o') => Normal ((x, o') :: env)
+                           | Some None => Raised
+                           | None => Stuck end
+               | None => Stuck
+               end
       | _, _, _ => Stuck
       end
   | SAugItem x i op e =>
